@@ -243,4 +243,28 @@ theorem pipeline_accepts (spec : List Opt) (ini : List (Str × CfgVal)) (dodo : 
   unfold parseOnly
   simp only [hg', hp1, withPos, withDodo]
 
+/-! ### loader options before the command name -/
+
+theorem applyOptVals_nd (ov : List (Str × Val)) (p : Params) : (applyOptVals ov p).nd = p.nd := by
+  induction ov generalizing p with
+  | nil => rfl
+  | cons x r ih => obtain ⟨k, v⟩ := x; simp [applyOptVals, ih, Params.setDefault]
+
+theorem applyOptVals_vals (ov : List (Str × Val)) (hnd : (ov.map (·.1)).Nodup) (p : Params) (n : Str) :
+    (applyOptVals ov p).vals n = match alookup n ov with
+      | some v => some v
+      | none => p.vals n := by
+  induction ov generalizing p with
+  | nil => simp [applyOptVals, alookup]
+  | cons x r ih =>
+    obtain ⟨k, v⟩ := x
+    simp only [List.map_cons, List.nodup_cons] at hnd
+    simp only [applyOptVals]
+    rw [ih hnd.2, alookup_cons]
+    by_cases hk : k = n
+    · subst hk
+      simp [alookup_not_mem k r hnd.1, Params.setDefault]
+    · have hk' : ¬ n = k := fun e => hk e.symm
+      simp [hk, hk', Params.setDefault]
+
 end DoitModel.Opt
